@@ -332,7 +332,48 @@ Definition retry_pending {S} (mopf : S -> mop -> S * obs) (s : S) (p : option na
               match o_res o with ResOk => (s', None) | _ => (s', Some j) end
   end.
 
-Definition w_mop {S} (mopf : S -> mop -> S * obs) (obsf : S -> mres -> bool -> obs)
+(* The restart / re-registration loops around the same layer:
+     WOnce     selfmon.withActiveLock called once (above);
+     WRun      selfmon.run: for { withActiveLock(monitor); sleep ConnectionTimeout }:
+               a watcher whose registration lapsed and who was notified goes back to
+               registering (after the pause), i.e. becomes the pending one;
+     WService  calcium.RegisterService: on notification it registers again at once
+               and, if that fails, retries every heartbeat interval (pending).
+   The harness keeps at most one contender for a free key (pending, or lapsed and
+   not yet notified) at a time and aligns the retries, so these orders hold. *)
+Inductive wmode := WOnce | WRun | WService.
+
+Fixpoint newly_closed (before after : list bool) (k : nat) : option nat :=
+  match before, after with
+  | b :: bt, a :: at_ => if negb b && a then Some k else newly_closed bt at_ (S k)
+  | _, _ => None
+  end.
+
+(* what happens between the two tick rounds of an MTickAll *)
+Definition w_mid {S} (mode : wmode) (mopf : S -> mop -> S * obs) (s1 : S) (p : option nat)
+                 (newly : option nat) : S * option nat :=
+  match mode, newly with
+  | WService, Some j =>
+      (* the notified registrant registers again at once *)
+      let '(sa, o) := mopf s1 (MReg j) in
+      match o_res o with
+      | ResOk => retry_pending mopf sa p
+      | _ => match p with
+             | None => (sa, Some j)
+             | Some _ => retry_pending mopf sa p
+             end
+      end
+  | WRun, Some j =>
+      let '(sb, pb) := retry_pending mopf s1 p in
+      (sb, match pb with None => Some j | Some _ => pb end)
+  | _, _ => retry_pending mopf s1 p
+  end.
+
+Definition reobs {S} (obsf : S -> mres -> bool -> obs) (s' : S) (o : obs) : obs :=
+  mkObs (o_res o) (o_key o) (o_owner o) (o_ttl o)
+        (match o_closed o with [] => [] | _ => o_closed (obsf s' ResNone true) end).
+
+Definition w_mop {S} (mode : wmode) (mopf : S -> mop -> S * obs) (obsf : S -> mres -> bool -> obs)
                  (st : S * option nat) (m : mop) : (S * option nat) * obs :=
   let '(s, p) := st in
   match m with
@@ -341,30 +382,44 @@ Definition w_mop {S} (mopf : S -> mop -> S * obs) (obsf : S -> mres -> bool -> o
       match o_res o with ResOk => ((s', p), o) | _ => ((s', Some i), o) end
   | MLapse => let '(s', o) := mopf s MLapse in ((s', p), o)
   | MTickAll =>
+      let before := o_closed (obsf s ResNone true) in
       let '(s1, _) := mopf s MTickAll in
-      let '(s2, p') := retry_pending mopf s1 p in
-      (* a watcher that has just registered ticks as well before the observation *)
+      let newly := newly_closed before (o_closed (obsf s1 ResNone true)) O in
+      let '(s2, p2) := w_mid mode mopf s1 p newly in
+      (* a registrant that has just registered ticks as well before the observation *)
       let '(s3, _) := mopf s2 MTickAll in
-      ((s3, p'), obsf s3 ResNone true)
+      ((s3, p2), obsf s3 ResNone true)
   | MStop i =>
       match p with
       | Some j => if Nat.eqb i j then ((s, None), mask_ttl (obsf s ResNone true))
-                  else let '(s', o) := mopf s (MStop i) in ((s', p), o)
-      | None => let '(s', o) := mopf s (MStop i) in ((s', p), o)
+                  else let '(s', o) := mopf s (MStop i) in ((s', p), reobs obsf s' o)
+      | None => let '(s', o) := mopf s (MStop i) in ((s', p), reobs obsf s' o)
       end
   end.
 
-Fixpoint w_run {S} (mopf : S -> mop -> S * obs) (obsf : S -> mres -> bool -> obs)
+Fixpoint w_run {S} (mode : wmode) (mopf : S -> mop -> S * obs) (obsf : S -> mres -> bool -> obs)
                (st : S * option nat) (ms : list mop) : list obs :=
   match ms with
   | [] => []
-  | m :: t => let '(st', o) := w_mop mopf obsf st m in o :: w_run mopf obsf st' t
+  | m :: t => let '(st', o) := w_mop mode mopf obsf st m in o :: w_run mode mopf obsf st' t
   end.
 
+(* in the restart / re-registration modes the flag reported per registrant is
+   "does not (any longer) believe it holds": no successful registration whose
+   expiry channel is still open *)
+Definition e_obs2 (s : esys) (r : mres) (closed : bool) : obs :=
+  let o := e_obs s r closed in
+  mkObs (o_res o) (o_key o) (o_owner o) (o_ttl o)
+        (if closed then map (fun g => negb (e_believes g)) (es_rs s) else []).
+Definition s_obs2 (s : ssys) (r : mres) (closed : bool) : obs :=
+  let o := s_obs s r closed in
+  mkObs (o_res o) (o_key o) (o_owner o) (o_ttl o)
+        (if closed then map (fun g => negb (s_believes g)) (ss_rs s) else []).
+
 (* --- cases --- *)
-(* BEtcd / BRedis: StartEphemeral driven directly; BEtcdW / BRedisW: through
-   selfmon.withActiveLock *)
-Inductive backend := BEtcd | BRedis | BEtcdW | BRedisW.
+(* BEtcd / BRedis: StartEphemeral driven directly; ..W: through selfmon.withActiveLock;
+   ..R: through selfmon.run (restart loop); ..S: through calcium.RegisterService *)
+Inductive backend := BEtcd | BRedis | BEtcdW | BRedisW | BEtcdR | BRedisR | BEtcdS | BRedisS.
 Record case := mkCase {
   k_backend : backend;
   k_ttls : list Z;          (* per registrant: etcd lease ttl (s) / redis ttl (ms) *)
@@ -375,8 +430,12 @@ Definition model_obs (c : case) : list obs :=
   match k_backend c with
   | BEtcd => e_run (run_skip estep esys_init (map GNew (k_ttls c))) (k_ops c)
   | BRedis => s_run (run_skip sstep ssys_init (map QNew (k_ttls c))) (k_ops c)
-  | BEtcdW => w_run e_mop e_obs (run_skip estep esys_init (map GNew (k_ttls c)), None) (k_ops c)
-  | BRedisW => w_run s_mop s_obs (run_skip sstep ssys_init (map QNew (k_ttls c)), None) (k_ops c)
+  | BEtcdW => w_run WOnce e_mop e_obs (run_skip estep esys_init (map GNew (k_ttls c)), None) (k_ops c)
+  | BRedisW => w_run WOnce s_mop s_obs (run_skip sstep ssys_init (map QNew (k_ttls c)), None) (k_ops c)
+  | BEtcdR => w_run WRun e_mop e_obs2 (run_skip estep esys_init (map GNew (k_ttls c)), None) (k_ops c)
+  | BRedisR => w_run WRun s_mop s_obs2 (run_skip sstep ssys_init (map QNew (k_ttls c)), None) (k_ops c)
+  | BEtcdS => w_run WService e_mop e_obs2 (run_skip estep esys_init (map GNew (k_ttls c)), None) (k_ops c)
+  | BRedisS => w_run WService s_mop s_obs2 (run_skip sstep ssys_init (map QNew (k_ttls c)), None) (k_ops c)
   end.
 
 Definition agree (c : case) : bool := lobs_eqb (model_obs c) (k_obs c).
@@ -391,7 +450,10 @@ Definition agree (c : case) : bool := lobs_eqb (model_obs c) (k_obs c).
      (Y) a Stop by a registrant that is not the owner does not remove the key;
      (W) a Reg succeeds only when the key was absent, and then the key exists. *)
 Record view := mkView { v_active : list nat; v_owner : option nat; v_key : bool; v_pend : option nat }.
-Definition is_w (b : backend) : bool := match b with BEtcdW | BRedisW => true | _ => false end.
+Definition is_w (b : backend) : bool := match b with BEtcd | BRedis => false | _ => true end.
+Definition is_etcd (b : backend) : bool := match b with BEtcd | BEtcdW | BEtcdR | BEtcdS => true | _ => false end.
+Definition mode_of (b : backend) : wmode :=
+  match b with BEtcdR | BRedisR => WRun | BEtcdS | BRedisS => WService | _ => WOnce end.
 
 Definition remove_nat (i : nat) (l : list nat) : list nat := filter (fun j => negb (Nat.eqb i j)) l.
 Definition mem_nat (i : nat) (l : list nat) : bool := existsb (Nat.eqb i) l.
@@ -405,23 +467,38 @@ Definition ok_step (b : backend) (v : view) (m : mop) (o : obs) : bool * view :=
       match o_res o with
       | ResOk =>
           (negb (v_key v) && o_key o
-           && match b with BEtcd | BEtcdW => onat_eqb (o_owner o) (Some i) | _ => true end,
+           && (if is_etcd b then onat_eqb (o_owner o) (Some i) else true),
            mkView (i :: remove_nat i (v_active v)) (Some i) (o_key o) (v_pend v))
       | _ => (true, mkView (v_active v) owner0 (o_key o) (if is_w b then Some i else v_pend v))
       end
   | MLapse => (true, mkView (v_active v) owner0 (o_key o) (v_pend v))
   | MTickAll =>
       let act := filter (fun i => negb (closed_at o i)) (v_active v) in
-      (* watcher mode: a key that appears during the tick was created by the pending watcher *)
+      let notified := filter (closed_at o) (v_active v) in
+      (* client modes: a key that appears during the tick was created by the pending
+         registrant or (RegisterService) by a notified registrant registering again;
+         etcd tells who, for redis only the pending one can be (redis never notifies) *)
       let taken := is_w b && negb (v_key v) && o_key o in
-      let '(act', owner', pend') :=
-        match v_pend v with
-        | Some j => if taken then (j :: remove_nat j act, Some j, None) else (act, owner0, v_pend v)
-        | None => (act, owner0, None)
-        end in
-      (forallb (fun i => o_key o && onat_eqb owner' (Some i)) act'
-       && match b, owner' with BEtcdW, Some j => onat_eqb (o_owner o) (Some j) | _, _ => true end,
-       mkView act' owner' (o_key o) pend')
+      let creator := if taken then (if is_etcd b then o_owner o else v_pend v) else None in
+      let candidate c :=
+        match v_pend v with Some j => Nat.eqb c j | None => false end
+        || match mode_of b with WService => mem_nat c (v_active v) | _ => false end in
+      let owner' := if is_etcd b then (if o_key o then (if is_w b then o_owner o else owner0) else None)
+                    else match creator with Some c => Some c | None => owner0 end in
+      let act1 := match creator with Some c => c :: remove_nat c act | None => act end in
+      let pend1 := match creator, v_pend v with
+                   | Some c, Some j => if Nat.eqb c j then None else Some j
+                   | _, pj => pj end in
+      (* a notified registrant that did not get the key goes back to registering *)
+      let pend' := match mode_of b, notified with
+                   | WOnce, _ => pend1
+                   | _, n :: _ => if mem_nat n act1 then pend1
+                                  else match pend1 with None => Some n | Some _ => pend1 end
+                   | _, [] => pend1
+                   end in
+      (forallb (fun i => o_key o && onat_eqb owner' (Some i)) act1
+       && match creator with Some c => candidate c | None => negb (taken && is_etcd b) end,
+       mkView act1 owner' (o_key o) pend')
   | MStop i =>
       let act := filter (fun j => negb (closed_at o j)) (remove_nat i (v_active v)) in
       let mine := onat_eqb (v_owner v) (Some i) in
